@@ -40,8 +40,8 @@ import (
 )
 
 const ChainID = "lab-1"
-const Denom = "nund"   // native / default enterprise + fee denom
-const Denom2 = "ufoo"  // a second, unrelated denomination
+const Denom = "nund"    // native / default enterprise + fee denom
+const Denom2 = "ufoo"   // a second, unrelated denomination
 const DenomBig = "atto" // 18-decimal style denomination with huge balances
 
 var StartTime = time.Unix(1_700_000_000, 0).UTC()
@@ -63,26 +63,26 @@ func NewAcct(i int) Acct {
 func (a Acct) Upper() string { return strings.ToUpper(a.Addr.String()) }
 
 type Options struct {
-	NAccts     int
-	Kinds      map[int]string // non-base account kinds
-	VestAmt    int64          // original vesting amount (native) for vesting kinds
-	NativeBal  int64          // per-account native balance
-	NativeBalOf map[int]int64 // per-account override of the native balance
-	Ent        enttypes.Params
-	Wrk        wrkchaintypes.Params
-	Beacon     beacontypes.Params
-	Stream     streamtypes.Params
-	PoStartID  uint64
-	WrkStartID uint64
-	BeaconStartID uint64
-	Whitelist  []int
-	ExtraDenoms []string // further denominations in the genesis supply (held by account 0)
+	NAccts         int
+	Kinds          map[int]string // non-base account kinds
+	VestAmt        int64          // original vesting amount (native) for vesting kinds
+	NativeBal      int64          // per-account native balance
+	NativeBalOf    map[int]int64  // per-account override of the native balance
+	Ent            enttypes.Params
+	Wrk            wrkchaintypes.Params
+	Beacon         beacontypes.Params
+	Stream         streamtypes.Params
+	PoStartID      uint64
+	WrkStartID     uint64
+	BeaconStartID  uint64
+	Whitelist      []int
+	ExtraDenoms    []string                              // further denominations in the genesis supply (held by account 0)
 	GenesisPOs     []enttypes.EnterpriseUndPurchaseOrder // purchase orders present in the genesis document
 	ExtraWhitelist []string
 	// node-local configuration (must not influence consensus results)
-	BaseAppOpts []func(*baseapp.BaseApp)
-	AppOpts     map[string]interface{}
-	Home        string
+	BaseAppOpts             []func(*baseapp.BaseApp)
+	AppOpts                 map[string]interface{}
+	Home                    string
 	SkipInvariantsAtGenesis bool
 }
 
@@ -420,7 +420,7 @@ func (l *Lab) Tx(a Acct, fee sdk.Coins, msgs ...sdk.Msg) abci.ResponseDeliverTx 
 	return l.Deliver(l.MustBuild(TxSpec{Msgs: msgs, Signers: []Acct{a}, Fee: fee}))
 }
 
-func Nund(n int64) sdk.Coins { return sdk.NewCoins(sdk.NewInt64Coin(Denom, n)) }
+func Nund(n int64) sdk.Coins          { return sdk.NewCoins(sdk.NewInt64Coin(Denom, n)) }
 func Coin(d string, n int64) sdk.Coin { return sdk.NewInt64Coin(d, n) }
 
 func GovAuthority() string { return authtypes.NewModuleAddress(govtypes.ModuleName).String() }
